@@ -29,6 +29,10 @@ for line in out.splitlines():
     if len(parts) >= 2 and parts[1].startswith("exit="):
         cur = parts[0]
         det[cur] = {"exit": int(parts[1][5:]), "violation": ("VIOLATION" in line)}
+        for tok in parts:
+            if tok.startswith("violating_runs="):
+                det[cur]["violating_runs"] = tok.split("=")[1]
+        det[cur]["seed"] = os.environ.get("VERIF_SEED", "default")
     elif cur and (line.strip().startswith("invariant=") or line.strip().startswith("signature=")):
         det[cur]["first"] = line.strip()
     elif cur and line.startswith("HARNESS-ERROR"):
